@@ -271,6 +271,7 @@ class MotionMonitor(Monitor):
         settings = self.settings_for(rnd, feats)
         if feats.get("fw"):
             feats["fwparam"] = rnd.choice(["", "", "S1", "S0"])
+            feats["fwnospace"] = rnd.random() < 0.3       # "G10S1" is legal G-code too
         long_ = tier == "thorough" and rnd.random() < 0.05
         regs, g = gen_program(rnd, feats, settings, nsteps=rnd.randint(100, 600) if long_ else None)
         case = dict(cls=name, settings=settings, regions=regs, steps=g.steps, tags=sorted(g.tags))
